@@ -53,7 +53,7 @@ CLAIMED = {
             "schedules: FIFO/LIFO x first/last ready select case only; the data-race clause of the property is NOT decidable with this technique (no memory model) and is outside the claim",
             "DESIGN.md 5 C11, 3.6"),
     "C16": ("bounded symbolic model checking of the CLI's flag-to-option wiring and exit-status logic: the three action functions and main() are executed with every flag value symbolic; the options they pass are applied by the real gtree.newConfig and z3 decides that the resulting configuration, writer and reader are what the flags denote, that every failure surfaces as a non-zero ExitCoder and success as nil, and that main exits non-zero exactly when App.Run failed",
-            "library entry points, urfave/cli's parser, os.Open/Exit and the standard streams are stubs (contracts listed in the evidence); what the library does with the options is C01-C15; counterexamples of these jobs are replayed by a concrete CLI-vs-library differential run (tools/cli_replay)",
+            "library entry points, urfave/cli's parser, os.Open/Exit and the standard streams are stubs (contracts listed in the evidence); what the library does with the options is C01-C15; models of these jobs (witnesses and counterexamples) are replayed by a concrete CLI-vs-library differential run (engine/clireplay.go + replay/cliref: stdout, exit status, file-system snapshot, also with stdout=/dev/full)",
             "DESIGN.md 5 C16"),
     "C17": ("bounded symbolic model checking of a two-variant relational property: the tinywasm file set is regenerated from /repo as a second package of the same SSA program, both Output implementations run on the same symbolic documents and options, and z3 decides equal accept/reject decisions and equal output (text with opaque branch strings, JSON record, dry-run report)",
             "the tinywasm constraint is emulated by file selection (same files the Go tool would select); Parse contract; encoder stubs; bound = rows",
